@@ -121,6 +121,21 @@ class Prop(PropBase):
                 c["imag_a"] = False
                 c["a"][0] = hx(float(rng.randint(-10**6, 10**6)))
                 c["b"] = [hx(float(rng.choice([1, 2, 3, 7, 0]))), hx(rng.choice([0.0, 0.25, -0.3, 0.5, rng.uniform(0.01, 0.5)]))]
+                if rng.random() < 0.5:
+                    # divisors that need both doubles, dividends at / next to an exact multiple (the quotient estimate
+                    # on rounded values is then off by one and has to be settled exactly)
+                    bc = rng.choice([1, 3, 7, 1000, 13377583, 2**30 + 1, 2**40]) * rng.choice([1, 1, -1])
+                    bf = rng.uniform(-0.5, 0.5)
+                    if c["bkind"] == "quantity_cycle":
+                        Bx = F(float(bc + bf))
+                        c["b"] = [hx(float(bc + bf)), hx(0.0)]
+                    else:
+                        Bx = F(float(bc)) + F(bf)
+                        c["b"] = [hx(float(bc)), hx(bf)]
+                    kmax = max(1, min(10**6, int(2**50 // abs(Bx))))
+                    Ax = rng.randint(-kmax, kmax) * Bx + F(rng.choice([0, 1, -1, 3, -3])) * F(2) ** rng.choice([-20, -30, -40, -45, -50])
+                    ai = round(Ax)
+                    c["a"] = [hx(float(ai)), hx(float(Ax - ai))]
             elif op == "construct2":
                 c["b"] = [hx(self._frac(rng))]
             yield c
